@@ -28,11 +28,15 @@ func main() {
 	g.ptrHist([]string{"bumpC", "readC", "goC", "bumpC", "goC", "fill", "readG", "goG"})
 	g.sameNameStructs()
 	g.sameNameCalls()
+	g.pinnedRetHist()
+	g.fieldWriteCase(0, &gty{rt: kinds[0].rt, coq: "(TNum KI)", kind: "num", nk: 0}, jsString("eighty"))
+	g.fieldWriteCase(5, &gty{rt: kinds[0].rt, coq: "(TNum KI)", kind: "num", nk: 0}, jsx{"true", "(JBool true)"})
+	g.sweepFieldWrite()
 	g.sweepNum()
 	g.sweepStore()
 	g.sweepArity()
 	for env.Count() < env.N {
-		switch env.Rng.Intn(41) {
+		switch env.Rng.Intn(50) {
 		case 0, 1, 2:
 			g.randNum()
 		case 3, 4, 5:
@@ -61,6 +65,10 @@ func main() {
 			g.sameNameCalls()
 		case 31, 32, 33, 34:
 			g.ptrHist(nil)
+		case 35, 36, 37, 38, 39:
+			g.randFieldWrite()
+		case 40, 41, 42:
+			g.randRetHist()
 		default:
 			g.callCase()
 		}
@@ -702,3 +710,5 @@ func (g *gen) pinned() {
 }
 
 func negZero() float64 { return math.Copysign(0, -1) }
+
+func bigInt(v int64) *big.Int { return big.NewInt(v) }
